@@ -405,3 +405,67 @@ class SwitchTableEngine:
             emit("the-first-rows-precede-the-stepping-loop-the-others-follow-it",
                  all(r[3] < ln for r in rows[:k0]) and all(r[3] > loops[0].end_lineno for r in rows[k0:]), ln)
         return obls
+
+
+class FieldCopyEngine:
+    """obligations over a `copy()`-like method: the new object shares NO mutable state with the receiver.
+
+    The state fields are read off the real constructor (`self.<f> = <dict / defaultdict(...) / list / set ...>` in __init__: every field
+    initialised with a container).  In the verified method, for each of them there must be exactly one store  `new.<f> = deepcopy(self.<f>)`
+    (`copy.deepcopy` accepted) on the object created by `new = <Class>()` and returned at the end, and no other store to `new.<f>`.
+    One obligation per field, plus `created-fresh` and `returned`.  A shallow `.copy()`, a plain alias `new.f = self.f`, or a field
+    left at its constructor value (nothing copied) each fail that field's obligation."""
+
+    def __init__(self, registry, opts=None):
+        self.reg = registry
+        self.trivial_frames = 0
+
+    def verify(self, c, fdef, classctx=None):
+        if classctx is None:
+            raise StaleContract(f"{c.qualname}: not a method")
+        init = [n for n in classctx.body if isinstance(n, ast.FunctionDef) and n.name == "__init__"]
+        if not init:
+            raise StaleContract(f"{classctx.name}: no __init__")
+        fields = []
+        for st in ast.walk(init[0]):
+            if isinstance(st, ast.Assign) and len(st.targets) == 1 and isinstance(st.targets[0], ast.Attribute) \
+                    and isinstance(st.targets[0].value, ast.Name) and st.targets[0].value.id == "self" \
+                    and isinstance(st.value, (ast.Dict, ast.List, ast.Set, ast.Call, ast.ListComp, ast.DictComp)):
+                fields.append(st.targets[0].attr)
+        if not fields:
+            raise StaleContract(f"{classctx.name}.__init__: no container fields found")
+        new = None
+        for st in fdef.body:
+            if isinstance(st, ast.Assign) and len(st.targets) == 1 and isinstance(st.targets[0], ast.Name) and isinstance(st.value, ast.Call) \
+                    and isinstance(st.value.func, ast.Name) and st.value.func.id == classctx.name and not st.value.args and not st.value.keywords:
+                new = st.targets[0].id
+                break
+        obls = []
+
+        def emit(label, ok, lineno=0):
+            obls.append(Obligation(f"{c.module}:{c.qualname}#copy:{label}", "frame", [], z3.BoolVal(bool(ok)), c.qualname, lineno))
+        emit("created-fresh: new = " + classctx.name + "()", new is not None, fdef.lineno)
+        if new is None:
+            return obls
+        stores = {}
+        for st in ast.walk(fdef):
+            tgts = st.targets if isinstance(st, ast.Assign) else ([st.target] if isinstance(st, (ast.AugAssign, ast.AnnAssign)) else [])
+            for tg in tgts:
+                if isinstance(tg, ast.Attribute) and isinstance(tg.value, ast.Name) and tg.value.id == new:
+                    stores.setdefault(tg.attr, []).append(st)
+
+        def is_deepcopy_of(val, f):
+            if not (isinstance(val, ast.Call) and len(val.args) == 1 and not val.keywords):
+                return False
+            fn = val.func
+            okfn = (isinstance(fn, ast.Name) and fn.id == "deepcopy") or (isinstance(fn, ast.Attribute) and fn.attr == "deepcopy"
+                                                                       and isinstance(fn.value, ast.Name) and fn.value.id == "copy")
+            a = val.args[0]
+            return okfn and isinstance(a, ast.Attribute) and a.attr == f and isinstance(a.value, ast.Name) and a.value.id == "self"
+        for f in fields:
+            sts = stores.get(f, [])
+            ok = len(sts) == 1 and isinstance(sts[0], ast.Assign) and is_deepcopy_of(sts[0].value, f)
+            emit(f"{new}.{f} = deepcopy(self.{f}), stored once", ok, sts[0].lineno if sts else fdef.lineno)
+        last = fdef.body[-1]
+        emit("returned", isinstance(last, ast.Return) and isinstance(last.value, ast.Name) and last.value.id == new, last.lineno)
+        return obls
